@@ -898,6 +898,10 @@ def run(ctx) -> Report:
     spell = lambda idx: SPELLINGS if idx < len(SPELLINGS) + 4 else chooser(idx)
     check_histories(hs, rep, ctx.scratch, spell)
     probes(rep, ctx.scratch)
+    # two uploads of ONE name that overlap in time inside one process (forced schedule): the object visible under the name is at every
+    # moment entirely one upload's bytes - each writer needs a temporary of its own
+    from harness import c02 as _c02
+    _c02.local_overlap_probe(ctx, rep)
     return rep
 
 
